@@ -1,5 +1,6 @@
 import MpsVerif.Proofs.BatchTime
 import MpsVerif.Proofs.BatchCount
+import MpsVerif.Proofs.BatchOut
 /-! The invariants hold in every reachable state. -/
 namespace Batch
 
@@ -16,6 +17,12 @@ theorem short_reachable (c : Cfg) {s : State} (hr : Reachable c s) : ShortInv s 
   (reachable_inv c (Inv := fun s => ShapeInv c s ∧ ShortInv s)
     ⟨shape_init c, by intro o ho; simp [init] at ho⟩
     (fun s a s' h hs => ⟨shape_step c s a s' h.1 hs, short_step c s a s' h.1 h.2 hs⟩) hr).2
+
+theorem emit_reachable (c : Cfg) {s : State} (hr : Reachable c s) : EmitInv c s :=
+  reachable_inv c (emit_init c) (emit_step c) hr
+
+theorem link_reachable (c : Cfg) {s : State} (hr : Reachable c s) : LinkInv s :=
+  reachable_inv c link_init (link_step c) hr
 
 /-- no request is on `q_in` or inside a worker (everything that arrived has been dispatched) -/
 def Quiet (c : Cfg) (s : State) : Prop := reqsOf s.qin = [] ∧ ∀ i, i < c.k → inflight (s.ws i) = []
